@@ -36,6 +36,47 @@ def check_tree(ast, extra, which=None):
     return None
 
 
+# ----------------------------------------------------------------------------- self-closing elements as parents
+def check_tree_sc(ast, extra, which=None):
+    """check_tree for ASTs in which self-closing elements (HTML void names, trailing `/`) have children.
+    The xml / xhtml styles are read as they stand (`<br/>` complete, `<br>` open).  The html style writes
+    an empty self-closing element as a lone `<br>`, so there the expected tree decides how the k-th start
+    tag is read (G.lone_flags: complete iff the k-th denoted element is self-closing and empty): the
+    output must admit the denoted tree as a reading."""
+    from emmet import expand
+    abbr = G.print_abbr(ast, extra)
+    expected = G.denote(ast)
+    lone = G.lone_flags(ast)
+    for syntax, fmt in (CONFIGS if which is None else (CONFIGS[which % 6], CONFIGS[(which + 3) % 6])):
+        config = {'syntax': syntax, 'options': {'output.format': fmt}}
+        if not fmt:
+            config['cache'] = {}
+        out = expand(abbr, config)
+        try:
+            got = G.shape(G.parse_markup(out, lone_tags=lone if syntax == 'html' else None))
+        except G.MarkupError as e:
+            return 'expand(%r, syntax=%s, output.format=%s) is not well-nested markup with the expected tree %s (%s): %r' % (
+                abbr, syntax, fmt, G.show(expected), e, out)
+        diff = G.first_difference(expected, got)
+        if diff:
+            return 'expand(%r, syntax=%s, output.format=%s): %s; expected tree %s, got %s (output %r)' % (
+                abbr, syntax, fmt, diff, G.show(expected), G.show(got), out)
+    return None
+
+
+def random_sc_cases(seed, count, nmin, nmax):
+    rng = random.Random(seed * 1000003 + 401)
+    done = 0
+    while done < count:
+        n = rng.randint(nmin, nmax)
+        ast = G.random_ast(rng, n, implicit_p=rng.choice((0.0, 0.3, 0.6)), void_p=0.3, group_p=rng.choice((0.1, 0.3)))
+        if not G.make_parents_self_closing(rng, ast):
+            continue
+        done += 1
+        extra = rng.choice((0, 0, 0, 1, 2)) if len(ast) > 1 else 0
+        yield (ast, extra, done % 3)
+
+
 # ----------------------------------------------------------------------------- call histories with snippets
 # Elements whose name is a multi-level snippet, with children attached, expanded several times with
 # shared caller state (a `cache` dict, the config dict, a Config object).  Every call of a history must
@@ -239,11 +280,15 @@ def run(tier, seed):
         clamp = [(2, 1, 1), (3, 1, 1), (4, 1, 1)]
         nrand, rmin, rmax = 1000, 6, 40
         ntails = 2
+        scplan = [([(2, 2, 2), (3, 2, 1)], None, False), ([(4, 1, 1)], 2, True)]
+        nscrand = 300
     else:
         plan = [([(1, 2, 3), (2, 2, 3), (3, 2, 3), (4, 2, 2)], None, False), ([(5, 2, 2)], 1, False), ([(6, 2, 1)], 1, False), ([(7, 0, 2)], 1, False)]
         clamp = [(2, 2, 2), (3, 2, 2), (4, 2, 2), (5, 1, 1)]
         nrand, rmin, rmax = 10000, 6, 40
         ntails = 3
+        scplan = [([(2, 2, 3), (3, 2, 2)], None, False), ([(4, 2, 2)], 1, False), ([(5, 1, 1)], 1, False)]
+        nscrand = 3000
     out = []
 
     def fmt(spaces):
@@ -265,6 +310,27 @@ def run(tier, seed):
         if pair:
             cases = ((ast, extra, i % 3) for i, (ast, extra) in enumerate(cases))
         run_parallel(c, 'bounded.c01', 'check_tree', cases, chunk=400)
+    out.append(c.done())
+
+    def scname(v):
+        return 'all six self-closing variants' if v is None else '%d of the six self-closing variants, rotating with the case index' % v
+
+    c = Clause('self-closing-parents', 'B',
+               'every operator skeleton in which at least one element has children, the elements with children being self-closing: '
+               'an HTML void name (br hr img input link meta col area param source embed base basefont) or any name / a nameless '
+               'element written with a trailing `/`; leaves ordinary, void, nameless (implicit name below a void parent) or with `/`; '
+               'plus seeded random ASTs of %d..%d elements whose parents are made self-closing with probability 0.7' % (rmin, 30),
+               ' | '.join('%s: %s, %s' % (fmt(sp), scname(v), 'one rotating pair of configurations' if pair else 'all 6 configurations')
+                          for sp, v, pair in scplan) + ' | %d random cases, seed %d, one rotating pair of configurations' % (nscrand, seed),
+               'a case is one abbreviation AST; expected forest = denotation of the AST (a self-closing element is an element like any '
+               'other: what follows `>` nests inside it); xml/xhtml output read as it stands, html output read with the lone start tags '
+               'the denoted tree prescribes', exhaustive=False)
+    for sp, v, pair in scplan:
+        cases = G.void_parent_cases(sp, v)
+        if pair:
+            cases = ((ast, extra, i % 3) for i, (ast, extra) in enumerate(cases))
+        run_parallel(c, 'bounded.c01', 'check_tree_sc', cases, chunk=200)
+    run_parallel(c, 'bounded.c01', 'check_tree_sc', random_sc_cases(seed, nscrand, rmin, 30), chunk=20)
     out.append(c.done())
 
     c = Clause('snippet-call-histories', 'B',
